@@ -9,7 +9,7 @@ from vlib import env, ir, progcheck, strategies as S
 from checks import c14
 
 PROP = 'C15'
-PROFILE = S.profile(n_items=(2, 18), far=False, big_gaps=False, w_group=0, w_labelval=2, n_consts=(0, 3), n_labels=(1, 4),
+PROFILE = S.profile(n_items=(2, 18), far=False, big_gaps=False, w_group=0, w_labelval=2, labelval_direct=False, n_consts=(0, 3), n_labels=(1, 4),
                     w_calltail=1, w_data=3, w_align=1, odd_data=False)
 N = {'quick': 4000, 'thorough': 240000}
 
@@ -90,6 +90,45 @@ def cases(draw, rot=0):
             'main_rel': draw(st.booleans())}
 
 
+def repaired(text):
+    """A valid line of the same kind and (pessimistic) size as the planted one - used to make sure that the REST of the
+    program is valid in the layout the planted line creates, i.e. that the planted line is the only fault."""
+    import re
+    t = text.strip()
+    head = t.split()[0].lower() if t.split() else ''
+    if head in ('bytes', 'shorts', 'ints', 'longs', 'longlongs'):
+        return head + ' ' + ' '.join('1' for _ in t.split()[1:])
+    if head in ('db', 'dh', 'dw', 'dd'):
+        return head + ' 1'
+    if head == 'pack':
+        return 'pack ' + t.split()[1].rstrip(',') + ' 1'
+    if head == 'align':
+        return 'align 4'
+    if head in ('error', 'include', 'include_bytes') or t.endswith(':'):
+        return '# (removed)'
+    if len(t.split()) >= 2 and t.split()[1] == '=':
+        return t.split()[0] + ' = 1'
+    if head.startswith('c.'):
+        return 'c.nop'
+    if head == 'li':
+        return 'li x5, 0x12345'
+    if head in ('call', 'tail'):
+        return 'li x5, 0x12345'
+    return 'addi x5, x6, 1'
+
+
+def replace_line(node, old, new):
+    import copy
+    n = c14.Node()
+    n.name, n.place, n.form, n.alt_lines = node.name, node.place, node.form, node.alt_lines
+    for e in node.entries:
+        if e[0] == 'line':
+            n.entries.append(('line', new if e[1] == old else e[1]))
+        else:
+            n.entries.append(('inc', replace_line(e[1], old, new)))
+    return n
+
+
 def locate(rootdir, text):
     hits = []
     for d, _, files in os.walk(rootdir):
@@ -156,6 +195,20 @@ def judge(case, res):
             if exc is None:
                 res.count('not_refused:' + case['cls'])
                 return
+            # the planted line must be the ONLY fault: the same tree with a valid line of the same kind and size in its
+            # place has to assemble (a planted line can push a later, label-dependent operand out of range, for example)
+            if case['cls'] != 'duplabel':
+                fixed_root = os.path.join(root, 'repaired')
+                fsrc = os.path.join(fixed_root, 'p', 'src')
+                os.makedirs(fsrc)
+                ftext = c14.write_tree(replace_line(case['root'], case['fault'], repaired(case['fault'])), fsrc, fixed_root, set(),
+                                       {'depth': 0, 'incdir': False, 'ambiguous': False, 'names': []})
+                with open(os.path.join(fsrc, 'main.asm'), 'w', encoding='utf-8') as f:
+                    f.write(ftext)
+                ok = progcheck.assemble(a, os.path.join(fsrc, 'main.asm'), comp, include_dirs=[os.path.join(fixed_root, 'inc1'), os.path.join(fixed_root, 'inc2')])
+                if ok[0] != 'ok':
+                    res.count('rest_of_program_invalid')
+                    return
             res.count('refused:' + case['cls'])
             if not isinstance(exc, a.AssemblerError):
                 raise env.CaseFailure('raw:%s:%s' % (progcheck.exc_sig(exc), sig_tail),
